@@ -304,6 +304,24 @@ def case_api(case):
                         r.fail("vario_estimate == pair enumeration", {"values": g.tolist(), "counts": c.tolist()}, {"values": exp.tolist(), "counts": cnt.tolist()}, "", edges=list(edges), estimator=e, dim=dim)
                     g2 = gs.vario_estimate(pos, f, edges, estimator=name)[1]
                     r.close("return_counts=False gives the same values", g2, g, rtol=0, atol=0)
+        # every way the API lets values be missing, combined: two masked fields with different masks, a NaN,
+        # a no_data value and an explicit mask on top
+        if n >= 4:
+            base = np.array([[0.0, 1.0, 3.0, 2.0][:n], [0.5, 2.0, 1.0, 0.0][:n]])
+            for ia, ib, im in itertools.product(range(n), repeat=3):
+                eff = base.copy()
+                eff[0, ia], eff[1, ib] = np.nan, np.nan
+                eff[:, im] = np.nan
+                eff[0, (ia + 1) % n] = np.nan  # carried by NaN in the data
+                fld = base.copy()
+                fld[0, (ia + 1) % n] = np.nan
+                mf = np.ma.array(fld, mask=[[i == ia for i in range(n)], [i == ib for i in range(n)]])
+                for edges in edge_sets((3,))[:2]:
+                    exp, cnt = ov.unstructured(eff, edges, dist, "m")
+                    bc, g, c = gs.vario_estimate(pos, mf, edges, mask=np.array([i == im for i in range(n)]), return_counts=True)
+                    nsub += 1
+                    if not (np.array_equal(c, cnt) and np.allclose(g, exp, rtol=1e-12, atol=1e-14)):
+                        r.fail("vario_estimate with masked fields (different masks) + NaN + explicit mask == pair enumeration over each field's valid points", {"values": g.tolist(), "counts": c.tolist()}, {"values": exp.tolist(), "counts": cnt.tolist()}, "", missing=[ia, ib, im], edges=list(edges), dim=dim)
     r.evals += nsub
     return r.done(outcome=[kind, nsub], sub={"estimates": nsub})
 
@@ -369,9 +387,11 @@ def run(chk):
             grids.append({"shape": list(shape), "values": list(v), "mask_step": 1 if ncell <= 6 else 5})
     chk.run("axis", case_axis, grids, rule="all grids of shape up to (3,2)/(2,3) (quick; thorough (4,3),(3,2,2)) with values in {0,1,3.5} x every mask pattern with <= 3 masked cells x masked-array / NaN / no_data / mask+NaN variants x axis x both estimators", chunk=8)
     apic = [{"kind": "euclid", "dim": d, "points": list(c)} for d in (1, 2, 3) for c in list(itertools.combinations_with_replacement(range(lattice(d).shape[1]), 3))[:: (1 if tier != "quick" else 5)]]
+    # 4-point sets for the combined missing-value case (masks x NaN x explicit mask)
+    apic += [{"kind": "euclid", "dim": d, "points": list(c)} for d in (1, 2) for c in list(itertools.combinations_with_replacement(range(lattice(d).shape[1]), 4))[:: (3 if tier != "quick" else (5 if d == 1 else 60))]]
     apic += [c for c in lcases[:: (1 if tier != "quick" else 4)]]
     for c in apic:
         c.setdefault("kind", "euclid")
-    chk.run("api", case_api, apic, rule="vario_estimate(return_counts=True) isotropic with 1 and 2 fields; lat-lon with geo_scale in {1, degree, km, 17.3} and bins scaled accordingly", chunk=8, min_outcomes=2)
+    chk.run("api", case_api, apic, rule="vario_estimate(return_counts=True) isotropic with 1 and 2 fields; 4-point sets x all (masked position field 1, masked position field 2, explicit mask position) + NaN; lat-lon with geo_scale in {1, degree, km, 17.3} and bins scaled accordingly", chunk=8, min_outcomes=2)
     chk.assume("counts are compared exactly and values to 1e-12; a case whose decisive comparison (pair distance vs edge, angle vs tolerance, band distance vs bandwidth) lies within 1e-9 of the boundary without hitting it exactly is skipped (counted); exact hits are judged with the documented half-open / strict semantics")
     chk.assume("the separated-directions search is judged where no pair belongs to two of the given directions (its documented precondition) and, through vario_estimate, wherever the library itself selects it")
